@@ -32,6 +32,9 @@
 #include <fcppt/parse/basic_char.hpp>
 #include <fcppt/parse/basic_char_set.hpp>
 #include <fcppt/parse/basic_literal.hpp>
+#include <fcppt/parse/int.hpp>
+#include <fcppt/parse/uint.hpp>
+#include <fcppt/either/to_exception.hpp>
 #include <fcppt/parse/phrase_parse_stream.hpp>
 #include <fcppt/parse/operators/alternative.hpp>
 #include <fcppt/parse/operators/not.hpp>
@@ -44,6 +47,7 @@
 #include <filesystem>
 #include <fstream>
 #include <istream>
+#include <limits>
 #include <stdexcept>
 #include <string>
 #include <sys/stat.h>
@@ -181,7 +185,7 @@ struct World
 
   void op_stream(sim::Op const &op)
   {
-    unsigned const which = static_cast<unsigned>(op.getu("f") % 12);
+    unsigned const which = static_cast<unsigned>(op.getu("f") % 14);
     sim::Rng r(op.getu("vs"));
     std::size_t const len = op.getu("len") % 48;
     std::string text;
@@ -190,6 +194,27 @@ struct World
       text.push_back(alphabet[r.below(sizeof(alphabet) - 1)]);
     if (op.get("num") != 0)
       text = "(12,-7,300) 42 red" + text;
+    // integer parsers read a number that sits at or around the limits of the target type
+    bool negative = false;
+    unsigned __int128 magnitude = 0;
+    if (which >= 12)
+    {
+      static unsigned long long const edges[] = {0ULL, 1ULL, 127ULL, 128ULL, 255ULL, 256ULL, 32767ULL, 32768ULL, 65535ULL, 65536ULL, 2147483647ULL, 2147483648ULL, 2147483649ULL, 4294967295ULL, 4294967296ULL, 9223372036854775807ULL, 9223372036854775808ULL, 9223372036854775809ULL, 18446744073709551615ULL};
+      magnitude = edges[r.below(sizeof(edges) / sizeof(edges[0]))];
+      if (r.chance(1, 4))
+        magnitude = magnitude * 10 + r.below(10); // also beyond 64 bits
+      if (r.chance(1, 4))
+        magnitude = r.below(100000);
+      negative = which == 12 && r.chance(1, 2);
+      std::string digits;
+      for (unsigned __int128 m = magnitude; m != 0 || digits.empty(); m /= 10)
+      {
+        digits.insert(digits.begin(), static_cast<char>('0' + static_cast<int>(m % 10)));
+        if (m == 0)
+          break;
+      }
+      text = (negative ? "-" : "") + digits;
+    }
     sim::StreamBuf<char> sb(text, op.getu("chunk") % 9);
     if (op.has("trunc"))
       sb.visible(op.getu("trunc") % (text.size() + 1));
@@ -265,6 +290,60 @@ struct World
       });
       if (failure)
         ctx.probe("parse_failure_reported");
+      break;
+    }
+    case 12:
+    case 13:
+    {
+      // parse::int_ / parse::uint over the (possibly torn, failing) stream: success must carry the
+      // exact value of the digits that exist for the reader; a number the type cannot hold is a
+      // failure, never a wrapped value, and never undefined behaviour (UBSan watches)
+      namespace P = fcppt::parse;
+      unsigned const ty = static_cast<unsigned>(op.getu("cnt") % 3);
+      fcppt::optional::object<__int128> got;
+      __int128 lo = 0, hi = 0;
+      auto const run = [&](auto parser, auto limits) {
+        using T = decltype(limits);
+        lo = std::numeric_limits<T>::min();
+        hi = std::numeric_limits<T>::max();
+        auto res = P::phrase_parse_stream(parser, is, P::skipper::epsilon());
+        if (res.has_success())
+          got = fcppt::optional::object<__int128>{static_cast<__int128>(res.get_success_unsafe())};
+      };
+      how = call(n, allow, [&] {
+        if (which == 12)
+        {
+          if (ty == 0)
+            run(P::int_<int>{}, int{});
+          else if (ty == 1)
+            run(P::int_<long long>{}, static_cast<long long>(0));
+          else
+            run(P::int_<long>{}, long{});
+        }
+        else
+        {
+          if (ty == 0)
+            run(P::uint<unsigned>{}, unsigned{});
+          else if (ty == 1)
+            run(P::uint<unsigned long long>{}, static_cast<unsigned long long>(0));
+          else
+            run(P::uint<unsigned long>{}, static_cast<unsigned long>(0));
+        }
+      });
+      if (got.has_value())
+      {
+        bool const whole = !op.has("trunc") || op.getu("trunc") % (text.size() + 1) == text.size();
+        __int128 const exact = negative ? -static_cast<__int128>(magnitude) : static_cast<__int128>(magnitude);
+        bool const representable = magnitude <= (static_cast<unsigned __int128>(1) << 100) && exact >= lo && exact <= hi;
+        if (whole && !sb.threw())
+        {
+          SIM_CHECK(representable, "out-of-range-accepted", n + ": '" + text + "' does not fit the target type but the parser reported success");
+          SIM_CHECK(got.get_unsafe() == exact, "parsed-value", n + ": '" + text + "' was parsed as another number");
+        }
+        ctx.probe("integer_parsed");
+      }
+      else
+        ctx.probe("integer_rejected");
       break;
     }
     case 10:
@@ -470,7 +549,7 @@ void warmup()
   // error categories) are not attributed to a later run's leak check
   sim::Plan p;
   p.property = prop::id;
-  for (unsigned f = 0; f < 12; ++f)
+  for (unsigned f = 0; f < 14; ++f)
     p.ops.push_back(sim::Op("stream").set("f", static_cast<long>(f)).set("len", 12).set("num", 1).set("vs", 1).set("cnt", 4));
   for (unsigned f = 0; f < 4; ++f)
     p.ops.push_back(sim::Op("facet").set("f", static_cast<long>(f)).set("len", 5).set("vs", 1));
@@ -513,7 +592,7 @@ void generate(sim::Rng &rng, sim::Plan &p, bool)
     long const vs = static_cast<long>(rng.below(1000000000));
     if (kind < 5)
     {
-      op = sim::Op("stream").set("f", static_cast<long>(rng.below(12))).set("vs", vs).set("len", static_cast<long>(rng.below(48))).set("chunk", static_cast<long>(rng.below(9))).set("cnt", static_cast<long>(rng.below(64))).set("num", static_cast<long>(rng.below(2)));
+      op = sim::Op("stream").set("f", static_cast<long>(rng.below(14))).set("vs", vs).set("len", static_cast<long>(rng.below(48))).set("chunk", static_cast<long>(rng.below(9))).set("cnt", static_cast<long>(rng.below(64))).set("num", static_cast<long>(rng.below(2)));
       if (faulty)
       {
         unsigned const f = static_cast<unsigned>(rng.below(7));
